@@ -36,6 +36,7 @@ type mhandle struct {
 	path   string
 	f      *mfile
 	pos    int
+	symPos *Term // non-nil: the cursor is this BV64 term (set by Seek with a symbolic offset)
 	closed bool
 	write  bool
 	appendMode bool
@@ -212,6 +213,45 @@ func (ex *Exec) fsWriteAt(h *mhandle, data []*Term, off int) {
 	ex.getFS().log = append(ex.getFS().log, fsWrite{path: h.path, off: off, data: append([]*Term(nil), data...), trunc: -1})
 }
 
+// filePos makes the cursor concrete. A symbolic cursor at or beyond the end of the file behaves the
+// same for every value as far as reads are concerned, so it is split only into "inside" (case split
+// over the few positions) and "at or past the end" (represented by a position past the end).
+func (ex *Exec) filePos(h *mhandle, forWrite bool) int {
+	if h.symPos == nil {
+		return h.pos
+	}
+	t := h.symPos
+	size := len(h.f.data)
+	if !forWrite {
+		if ex.Decide(ex.tt.Ule(ex.intTerm(size), t)) {
+			// keep the cursor symbolic; reads see EOF
+			return size
+		}
+	}
+	p := int(ex.Concretize(t, "file position"))
+	h.pos, h.symPos = p, nil
+	return p
+}
+
+// transferLen: min(len(p), avail) for a destination whose length may be symbolic, and whether the
+// destination is longer than what is available (short read).
+func (ex *Exec) transferLen(p *SliceVal, avail int) (n int, short bool) {
+	if p.symLen == nil {
+		if p.len <= avail {
+			return p.len, false
+		}
+		return avail, true
+	}
+	tt := ex.tt
+	if ex.Decide(tt.Ule(ex.intTerm(avail), p.symLen)) {
+		if avail > p.len {
+			panic(pathEnd{kind: "bound", msg: "read into a large symbolic-length buffer beyond its modelled cells"})
+		}
+		return avail, ex.Decide(tt.Ult(ex.intTerm(avail), p.symLen))
+	}
+	return int(ex.Concretize(p.symLen, "read length")), false
+}
+
 func (ex *Exec) intArg(v Value, what string) int {
 	return int(int64(ex.Concretize(v.(*Term), what)))
 }
@@ -290,19 +330,26 @@ func registerOSModels() {
 			return TupleVal{ex.intTerm(0), ex.osErr("closed", "read", h.path)}
 		}
 		p := a[1].(*SliceVal)
-		off := ex.intArg(a[2], "ReadAt offset")
-		if off < 0 {
+		offT := a[2].(*Term)
+		if ex.Decide(ex.tt.Slt(offT, ex.intTerm(0))) {
 			return TupleVal{ex.intTerm(0), ex.newOpaqueError("negative offset", nil)}
 		}
-		n := 0
-		for n < p.len && off+n < len(h.f.data) {
+		if !offT.IsConst() && ex.Decide(ex.tt.Ule(ex.intTerm(len(h.f.data)), offT)) {
+			// at or past the end: the same for every such offset
+			if p.len == 0 {
+				return TupleVal{ex.intTerm(0), nilErr()}
+			}
+			return TupleVal{ex.intTerm(0), ioEOF(ex)}
+		}
+		off := ex.intArg(offT, "ReadAt offset")
+		cnt, short := ex.transferLen(p, len(h.f.data)-off)
+		for n := 0; n < cnt; n++ {
 			p.arr.e[p.off+n] = h.f.data[off+n]
-			n++
 		}
-		if n < p.len {
-			return TupleVal{ex.intTerm(n), ioEOF(ex)}
+		if short {
+			return TupleVal{ex.intTerm(cnt), ioEOF(ex)}
 		}
-		return TupleVal{ex.intTerm(n), nilErr()}
+		return TupleVal{ex.intTerm(cnt), nilErr()}
 	}
 	intrinsics["(*os.File).Read"] = func(ex *Exec, fn *ssa.Function, a []Value) Value {
 		h := ex.handleOf(a[0])
@@ -310,19 +357,28 @@ func registerOSModels() {
 			return TupleVal{ex.intTerm(0), ex.osErr("closed", "read", h.path)}
 		}
 		p := a[1].(*SliceVal)
-		if p.len == 0 {
+		if p.symLen == nil && p.len == 0 {
 			return TupleVal{ex.intTerm(0), nilErr()}
 		}
-		n := 0
-		for n < p.len && h.pos < len(h.f.data) {
-			p.arr.e[p.off+n] = h.f.data[h.pos]
-			n++
-			h.pos++
+		if p.symLen != nil && ex.Decide(ex.tt.Eq(p.symLen, ex.intTerm(0))) {
+			return TupleVal{ex.intTerm(0), nilErr()}
 		}
-		if n == 0 {
+		pos := ex.filePos(h, false)
+		avail := len(h.f.data) - pos
+		if avail < 0 {
+			avail = 0
+		}
+		cnt, _ := ex.transferLen(p, avail)
+		for n := 0; n < cnt; n++ {
+			p.arr.e[p.off+n] = h.f.data[pos+n]
+		}
+		if h.symPos == nil {
+			h.pos = pos + cnt
+		}
+		if cnt == 0 {
 			return TupleVal{ex.intTerm(0), ioEOF(ex)}
 		}
-		return TupleVal{ex.intTerm(n), nilErr()}
+		return TupleVal{ex.intTerm(cnt), nilErr()}
 	}
 	intrinsics["(*os.File).WriteAt"] = func(ex *Exec, fn *ssa.Function, a []Value) Value {
 		h := ex.handleOf(a[0])
@@ -350,7 +406,11 @@ func registerOSModels() {
 		}
 		p := a[1].(*SliceVal)
 		if h.appendMode {
-			h.pos = len(h.f.data)
+			h.pos, h.symPos = len(h.f.data), nil
+		}
+		h.pos = ex.filePos(h, true)
+		if h.pos+p.len > ex.cfg.maxAllocCells {
+			panic(pathEnd{kind: "bound", msg: "write far beyond the end of a model file"})
 		}
 		ex.fsWriteAt(h, ex.sliceBytesOrNil(p), h.pos)
 		h.pos += p.len
@@ -359,6 +419,7 @@ func registerOSModels() {
 	intrinsics["(*os.File).WriteString"] = func(ex *Exec, fn *ssa.Function, a []Value) Value {
 		h := ex.handleOf(a[0])
 		s := a[1].(*StrVal)
+		h.pos = ex.filePos(h, true)
 		ex.fsWriteAt(h, s.b, h.pos)
 		h.pos += len(s.b)
 		return TupleVal{ex.intTerm(len(s.b)), nilErr()}
@@ -368,24 +429,35 @@ func registerOSModels() {
 		if h.closed {
 			return TupleVal{ex.intTerm(0), ex.osErr("closed", "seek", h.path)}
 		}
-		off := ex.intArg(a[1], "Seek offset")
+		tt := ex.tt
+		offT := a[1].(*Term)
 		wh := ex.intArg(a[2], "Seek whence")
-		var abs int
+		var base *Term
 		switch wh {
 		case 0:
-			abs = off
+			base = ex.intTerm(0)
 		case 1:
-			abs = h.pos + off
+			if h.symPos != nil {
+				base = h.symPos
+			} else {
+				base = ex.intTerm(h.pos)
+			}
 		case 2:
-			abs = len(h.f.data) + off
+			base = ex.intTerm(len(h.f.data))
 		default:
 			return TupleVal{ex.intTerm(0), ex.newOpaqueError("invalid whence", nil)}
 		}
-		if abs < 0 {
+		abs := tt.Add(base, offT)
+		// negative result (as int64) is an error
+		if ex.Decide(tt.Slt(abs, ex.intTerm(0))) {
 			return TupleVal{ex.intTerm(0), ex.newOpaqueError("negative position", nil)}
 		}
-		h.pos = abs
-		return TupleVal{ex.intTerm(abs), nilErr()}
+		if abs.IsConst() {
+			h.pos, h.symPos = int(abs.val), nil
+		} else {
+			h.symPos = abs
+		}
+		return TupleVal{abs, nilErr()}
 	}
 	intrinsics["(*os.File).Truncate"] = func(ex *Exec, fn *ssa.Function, a []Value) Value {
 		h := ex.handleOf(a[0])
@@ -426,10 +498,11 @@ func registerOSModels() {
 			return TupleVal{ex.intTerm(0), ex.newOpaqueError("mmap: closed", nil)}
 		}
 		p := a[1].(*SliceVal)
-		off := ex.intArg(a[2], "ReadAt offset")
-		if off < 0 || off > len(h.f.data) {
+		offT := a[2].(*Term)
+		if ex.Decide(ex.tt.BOr(ex.tt.Slt(offT, ex.intTerm(0)), ex.tt.Slt(ex.intTerm(len(h.f.data)), offT))) {
 			return TupleVal{ex.intTerm(0), ex.newOpaqueError("mmap: invalid ReadAt offset", nil)}
 		}
+		off := ex.intArg(offT, "ReadAt offset")
 		n := 0
 		for n < p.len && off+n < len(h.f.data) {
 			p.arr.e[p.off+n] = h.f.data[off+n]
